@@ -195,6 +195,24 @@ theorem SameV_foldl {P} {β} (f : St → β → St) (hf : ∀ s x, SameV P s (f 
     SameV P s (l.foldl f s) :=
   foldl_inv (fun s' => SameV P s s') f (fun a b ha => ha.trans (hf a b)) l s (SameV.refl P s)
 
+-- CHANGED (dropped): a detach may start a tagging job, so it no longer keeps `jTag`; `SameT` is `SameV`
+-- without the job
+/-- a helper that keeps the graph view, the texts on `P` and the key order (the running job may change) -/
+structure SameT (P : String → Prop) (s s' : St) : Prop where
+  w : WEq s.tags s'.tags
+  defn : ∀ n, P n → (sget s'.tags n).map (·.defn) = (sget s.tags n).map (·.defn)
+  sorted : Sorted s.tags → Sorted s'.tags
+
+theorem SameT.refl (P) (s : St) : SameT P s s := ⟨WEq.refl _, fun _ _ => rfl, id⟩
+theorem SameT.trans {P} {a b c : St} (h1 : SameT P a b) (h2 : SameT P b c) : SameT P a c :=
+  ⟨h1.w.trans h2.w, fun n hn => (h2.defn n hn).trans (h1.defn n hn), fun h => h2.sorted (h1.sorted h)⟩
+theorem SameV.t {P} {s s' : St} (h : SameV P s s') : SameT P s s' := ⟨h.w, h.defn, h.sorted⟩
+theorem SameT.of_eq {P} {s s' : St} (h1 : s'.tags = s.tags) : SameT P s s' :=
+  ⟨h1 ▸ WEq.refl _, fun _ _ => by rw [h1], fun h => h1 ▸ h⟩
+theorem SameT_foldl {P} {β} (f : St → β → St) (hf : ∀ s x, SameT P s (f s x)) (l : List β) (s : St) :
+    SameT P s (l.foldl f s) :=
+  foldl_inv (fun s' => SameT P s s') f (fun a b ha => ha.trans (hf a b)) l s (SameT.refl P s)
+
 /-- same facts view (texts on `P`), same job, key order kept; `refBy` may differ -/
 structure SameFJ (P : String → Prop) (s s' : St) : Prop where
   f : FEq P s.tags s'.tags
@@ -300,16 +318,39 @@ theorem SameV_attachConv {P} (s : St) (n c : String) : SameV P s (attachConv s n
       · exact SameV.refl _ _
       · exact (SameV_setTag (t' := { t with convs := t.convs ++ [c] }) ht rfl rfl).trans (SameV.of_eq rfl rfl)
 
-theorem SameV_detachConv {P} (s : St) (n c : String) : SameV P s (detachConv s n c) := by
+-- CHANGED (dropped): the named piece `odF` of `outputDropped` keeps the graph view and the text
+theorem W_odF (all : Nat) (t : Tag) : W (odF all t) = W t ∧ (odF all t).defn = t.defn := by
+  unfold odF
+  split <;> exact ⟨rfl, rfl⟩
+
+-- CHANGED (dropped): `outputDropped` up to its final `startTagging` keeps the graph view and the job
+theorem SameV_odPre {P} (s : St) : SameV P s (invalidatedDuringTaggingJob
+    (inherit { s with tags := s.tags.map fun p => (p.1, odF s.all p.2) }) (rangeSet s.all)) := by
+  refine SameV.trans (SameV.trans (b := { s with tags := s.tags.map fun p => (p.1, odF s.all p.2) }) ?_
+    (SameV_inherit _)) (SameV_invDuring _ _)
+  exact SameV_map s (fun _ t => odF s.all t) (fun _ t => (W_odF _ t).1) (fun _ t => (W_odF _ t).2) _ rfl rfl
+
+-- CHANGED (dropped): `outputDropped` keeps `mainT/subT/refBy/defn` of every tag (it may start a job)
+theorem SameT_outputDropped {P} (s : St) (choice : Option String) : SameT P s (outputDropped s choice) := by
+  rw [outputDropped_eq]
+  split
+  · exact (SameV_odPre s).t.trans (SameT.of_eq (startTagging_tags _ _))
+  · exact SameT.refl _ _
+
+-- CHANGED (dropped): was `SameV P s (detachConv s n c)`; the detach may now start a tagging job
+-- (`outputDropped`), so `jTag` is not kept: the table part (`SameT`) is what remains true
+theorem SameT_detachConv {P} (s : St) (n c : String) (choice : Option String) :
+    SameT P s (detachConv s n c choice) := by
   unfold detachConv
   split
-  · exact SameV.refl _ _
+  · exact SameT.refl _ _
   · next t ht =>
-    have h := SameV_setTag (P := P) (t' := { t with convs := t.convs.filter (· != c) }) ht rfl rfl
+    have h := (SameV_setTag (P := P) (t' := { t with convs := t.convs.filter (· != c) }) ht rfl rfl).t
     simp only []
     split
-    · exact h.trans (SameV.of_eq rfl rfl)
-    · exact h.trans (SameV.of_eq rfl rfl)
+    · refine SameT.trans ?_ (SameT_outputDropped _ _)
+      exact h.trans (SameT.of_eq rfl)
+    · exact h.trans (SameT.of_eq rfl)
 
 theorem SameV_qConv {P} (s : St) (cs : List String) (ids : IdSet) : SameV P s (qConv s cs ids) := by
   unfold qConv
@@ -393,6 +434,32 @@ theorem GI_of_eq {s s' : St} (i : GI b s) (h1 : s'.tags = s.tags) (h2 : s'.jTag 
 theorem GI_startTagging (s : St) (c : Option String) (i : GI b s) : GI b (startTagging s c) :=
   ⟨FJ_startTagging s c i.fj, by rw [MgrSettle.startTagging_tags]; exact i.g⟩
 
+-- CHANGED (dropped): the job `outputDropped` may start snapshots a table entry, like every other `startTagging`
+theorem GI_outputDropped (s : St) (c : Option String) (i : GI b s) : GI b (outputDropped s c) := by
+  rw [outputDropped_eq]
+  split
+  · exact GI_startTagging _ _ (GI_of_sameT (SameV_odPre s) i)
+  · exact i
+
+-- CHANGED (dropped): the invariant through a detach (which may start a tagging job)
+theorem GI_detachConv (s : St) (n c : String) (choice : Option String) (i : GI b s) :
+    GI b (detachConv s n c choice) := by
+  unfold detachConv
+  split
+  · exact i
+  · next t ht =>
+    have h := GI_of_sameT (SameV_setTag (t' := { t with convs := t.convs.filter (· != c) }) ht rfl rfl) i
+    simp only []
+    split
+    · exact GI_outputDropped _ _ (GI_of_eq h rfl rfl)
+    · exact GI_of_eq h rfl rfl
+
+theorem GI_foldl {β} (f : St → β → St) (hf : ∀ s x, GI b s → GI b (f s x)) (l : List β) (s : St)
+    (i : GI b s) : GI b (l.foldl f s) := by
+  induction l generalizing s with
+  | nil => exact i
+  | cons a r ih => exact ih _ (hf s a i)
+
 theorem GI_jobTail (s : St) (st : Started) (i : GI b s) : GI b (jobTail s st) :=
   GI_of_sameT (SameV_startMerge _) (GI_of_sameT (SameV_startConverter _) (GI_startTagging _ _ i))
 
@@ -470,7 +537,7 @@ theorem gi_updConv (s : St) (name : String) (convs : List String) (st : Started)
     · unfold ucAttach ucDetach
       refine GI_of_sameT (SameV_startConverter _) ?_
       refine GI_of_sameT (SameV_foldl _ (fun s c => SameV_attachConv s name c) _ _) ?_
-      exact GI_of_sameT (SameV_foldl _ (fun s c => SameV_detachConv s name c) _ _) i
+      exact GI_foldl _ (fun s c hs => GI_detachConv s name c st.tag hs) _ _ i
 
 theorem GI_idApply (s : St) (n : Nat) (created : List (Nat × List Nat)) (u r a : IdSet) (i : GI b s) :
     GI b (idApply s n created u r a) := by
@@ -1036,11 +1103,11 @@ theorem g_delTag (s : St) (name : String) (st : Started) (g : G s.tags) :
   · exact g
   next hrb =>
   unfold dtApply
-  have hv : SameV PT s (t.convs.foldl (fun s c => detachConv s name c) s) :=
-    SameV_foldl _ (fun s c => SameV_detachConv s name c) _ _
+  have hv : SameT PT s (t.convs.foldl (fun s c => detachConv s name c st.tag) s) :=
+    SameT_foldl _ (fun s c => SameT_detachConv s name c st.tag) _ _
   obtain ⟨t', ht', _, _, e3⟩ := hv.w.get' ht
-  have hs := RSpec_foldDel name t.refs { (t.convs.foldl (fun s c => detachConv s name c) s) with
-      tags := sdel (t.convs.foldl (fun s c => detachConv s name c) s).tags name }
+  have hs := RSpec_foldDel name t.refs { (t.convs.foldl (fun s c => detachConv s name c st.tag) s) with
+      tags := sdel (t.convs.foldl (fun s c => detachConv s name c st.tag) s).tags name }
   exact G_del (G_congr hv.w g) ht' (e3.trans (isEmpty_not_false hrb)) hs
 
 /-! ## the graph edits, as events: the parser facts -/
@@ -1274,8 +1341,10 @@ theorem fj_delTag (s : St) (name : String) (st : Started) (fj : FJ s) :
   · exact fj
   unfold dtApply
   apply FJ_foldDel
-  have f1 : FJ (t.convs.foldl (fun s c => detachConv s name c) s) :=
-    FJ_of_sameT (SameV_foldl _ (fun s c => SameV_detachConv s name c) _ _).fj fj
+  -- a job started by the detach fold snapshots a table entry (possibly the one deleted next: the
+  -- job invariants `jplain`/`jtc` only look at entries that are still in the table)
+  have f1 : FJ (t.convs.foldl (fun s c => detachConv s name c st.tag) s) :=
+    (GI_foldl (b := False) _ (fun s c hs => GI_detachConv s name c st.tag hs) _ _ ⟨fj, False.elim⟩).fj
   refine ⟨sorted_sdel _ _ f1.sorted, FI_reindex ?_ f1.fi⟩
   intro n' t' h'
   simp only [sget_sdel] at h'
